@@ -30,7 +30,9 @@ func Parse(query string) (Query, error) {
 	}
 
 	trimmed = strings.TrimSuffix(trimmed, ";")
-	lower := strings.ToLower(trimmed)
+	// Offsets found in lower are used to slice trimmed, so the lowering must keep
+	// every byte offset: strings.ToLower changes the byte length of some runes.
+	lower := lowerASCII(trimmed)
 	fields := strings.Fields(lower)
 	if len(fields) == 0 {
 		return Query{}, fmt.Errorf("empty query")
@@ -48,6 +50,18 @@ func Parse(query string) (Query, error) {
 	default:
 		return Query{Type: QueryUnknown}, fmt.Errorf("unsupported statement")
 	}
+}
+
+// lowerASCII lower-cases the ASCII letters of s and leaves every other byte as it is,
+// so that len(lowerASCII(s)) == len(s) and byte offsets carry over.
+func lowerASCII(s string) string {
+	b := []byte(s)
+	for i, c := range b {
+		if 'A' <= c && c <= 'Z' {
+			b[i] = c + ('a' - 'A')
+		}
+	}
+	return string(b)
 }
 
 func parseShow(fields []string) (Query, error) {
